@@ -529,6 +529,17 @@ func execCert(c CertCase) (vh.Outcome, error) {
 	if terr == nil {
 		return out, vh.Errf("lenient parser accepted %d trailing byte(s) %x", len(c.Trailing), c.Trailing)
 	}
+	// ... also when the trailing data is itself a complete certificate (a DER concatenation)
+	for name, tail := range map[string][]byte{"the same certificate again": der, "another certificate": seedCorpus()[len(der)%len(seedCorpus())]} {
+		var got2 *x509.Certificate
+		var derr error
+		if perr := vh.Catch(func() { got2, derr = yubiattest.ParseCertificate(append(append([]byte{}, der...), tail...)) }); perr != nil {
+			return out, vh.Errf("ParseCertificate crashed on a certificate followed by %s: %v", name, perr)
+		}
+		if derr == nil {
+			return out, vh.Errf("lenient parser accepted a certificate followed by %s (%d trailing bytes) and returned serial %v", name, len(tail), got2.SerialNumber)
+		}
+	}
 	// RSA key without the NULL parameter
 	if strings.HasPrefix(c.SubjectKey, "rsa") {
 		nl, ok := stripKeyNULL(der)
@@ -556,7 +567,7 @@ func execCert(c CertCase) (vh.Outcome, error) {
 
 func TestC16ParseAgree(t *testing.T) {
 	vh.Run(t, vh.Spec[CertCase]{Property: "C16", Name: "TestC16ParseAgree",
-		Rule: "certificates from x509.CreateCertificate: RSA 1024..2048 (3072/4096 in thorough; sizes not divisible by 8) and P-256/384/521 subject keys; self-signed or issued by RSA / ECDSA CAs with PKCS#1, PSS and ECDSA signature algorithms; serials to 20 bytes; names with UTF-8 attributes; validity 1950..9999 incl. the UTCTime/GeneralizedTime edge; basic constraints, key usage, key ids, SAN dns/email/ip, EKU known+unknown, policies, vendor OIDs 1.3.6.1.4.1.41482.3.x critical or not (serial extension well-formed or arbitrary). Oracle: crypto/x509 accepts => lenient parser accepts and agrees on Raw, RawTBS, SPKI, names (raw and parsed), key, signature, algorithms, serial, validity, version, extension list; DER+trailing bytes refused; NULL-less RSA variant (lengths rewritten) accepted with the same fields; ModHex of the parsed certificate judged by the reference rendering. Non-trivial: >=2 extensions or a NULL-less variant.",
+		Rule: "certificates from x509.CreateCertificate: RSA 1024..2048 (3072/4096 in thorough; sizes not divisible by 8) and P-256/384/521 subject keys; self-signed or issued by RSA / ECDSA CAs with PKCS#1, PSS and ECDSA signature algorithms; serials to 20 bytes; names with UTF-8 attributes; validity 1950..9999 incl. the UTCTime/GeneralizedTime edge; basic constraints, key usage, key ids, SAN dns/email/ip, EKU known+unknown, policies, vendor OIDs 1.3.6.1.4.1.41482.3.x critical or not (serial extension well-formed or arbitrary). Oracle: crypto/x509 accepts => lenient parser accepts and agrees on Raw, RawTBS, SPKI, names (raw and parsed), key, signature, algorithms, serial, validity, version, extension list; DER+trailing bytes refused, also when the trailing bytes are a complete certificate; NULL-less RSA variant (lengths rewritten) accepted with the same fields; ModHex of the parsed certificate judged by the reference rendering. Non-trivial: >=2 extensions or a NULL-less variant.",
 		Gen:  genCert, Exec: execCert})
 }
 
@@ -786,6 +797,8 @@ type PEMCase struct {
 	TrailWS  string
 	Garbage  string
 	BlockHdr bool
+	// Double: (index+1) of the block whose body is its certificate followed by the next seed's DER; 0 = none
+	Double int
 }
 
 func (c PEMCase) data() ([]byte, [][]byte) {
@@ -797,6 +810,9 @@ func (c PEMCase) data() ([]byte, [][]byte) {
 		der := s[ix%len(s)]
 		ders = append(ders, der)
 		blk := &pem.Block{Type: "CERTIFICATE", Bytes: der}
+		if c.Double == i+1 {
+			blk.Bytes = append(append([]byte{}, der...), s[(ix+1)%len(s)]...)
+		}
 		if c.BlockHdr {
 			blk.Headers = map[string]string{"Slot": "9a"}
 		}
@@ -828,6 +844,13 @@ func execPEM(c PEMCase) (vh.Outcome, error) {
 	var oneErr error
 	if perr := vh.Catch(func() { one, oneErr = utils.ParsePEMCertificate(data) }); perr != nil {
 		return out, vh.Errf("ParsePEMCertificate crashed: %v", perr)
+	}
+	if c.Double > 0 && c.Double <= len(ders) {
+		out.Classes = append(out.Classes, "block-with-two-certificates")
+		if err == nil {
+			return out, vh.Errf("a PEM block holding two concatenated certificates (trailing data) was accepted: %d certificates from %d blocks", len(got), len(ders))
+		}
+		return out, nil
 	}
 	if c.Garbage != "" {
 		out.Classes = append(out.Classes, "garbage")
@@ -867,7 +890,7 @@ func execPEM(c PEMCase) (vh.Outcome, error) {
 
 func TestC16PEM(t *testing.T) {
 	vh.Run(t, vh.Spec[PEMCase]{Property: "C16", Name: "TestC16PEM",
-		Rule: "PEM bundles of 0..5 certificates drawn from the seed corpus, with leading text, text between blocks, PEM headers, trailing whitespace, and (negatively) trailing non-space garbage. Oracle: n>=1 => exactly n certificates in order, Raw-identical, and the single-certificate entry point returns the first; trailing garbage => error; whitespace-only => no certificates and no error; leading text without certificates => either outcome. Non-trivial: >=2 certificates, or one with decoration.",
+		Rule: "PEM bundles of 0..5 certificates drawn from the seed corpus, with leading text, text between blocks, PEM headers, trailing whitespace, and (negatively) trailing non-space garbage. Oracle: n>=1 => exactly n certificates in order, Raw-identical, and the single-certificate entry point returns the first; trailing garbage => error; a block whose body is two concatenated certificates (trailing data inside the block) => error; whitespace-only => no certificates and no error; leading text without certificates => either outcome. Non-trivial: >=2 certificates, or one with decoration.",
 		Gen: func(t *rapid.T) PEMCase {
 			c := PEMCase{}
 			n := rapid.IntRange(0, 5).Draw(t, "n")
@@ -889,6 +912,9 @@ func TestC16PEM(t *testing.T) {
 				c.Garbage = rapid.SampledFrom([]string{"x", "garbage\n", "-----BEGIN CERTIFICATE-----\n", "-----BEGIN CERTIFICATE-----\nAAAA\n", "\x00", "-----END CERTIFICATE-----\n"}).Draw(t, "garbage")
 			}
 			c.BlockHdr = rapid.IntRange(0, 5).Draw(t, "blockHdr") == 0
+			if n > 0 && c.Garbage == "" && rapid.IntRange(0, 5).Draw(t, "hasDouble") == 0 {
+				c.Double = rapid.IntRange(1, n).Draw(t, "double")
+			}
 			return c
 		},
 		Exec: execPEM})
